@@ -1148,6 +1148,8 @@ def _run(ck: Check):
             out["skip"].append(("<catalogue %d>" % i, "build-error", f"{type(e).__name__}: {str(e)[:160]}"))
             continue
         fam_seen[scen.family] = fam_seen.get(scen.family, 0) + 1
+        if spec.get("cell"):
+            ck.extra.setdefault("substitution_model_special_point_cells", []).append(spec["cell"])
         try:
             _one_configuration(ck, scen, spec, rng, thorough, i, out)
         except Exception as e:  # an implementation exception that escaped the guarded calls: never crash
@@ -1259,16 +1261,19 @@ def probe_eigh_degenerate(ck, rng):
 
 
 def _on_repeated_eigenvalue(bad):
-    """a catalogue point that sits exactly on the listed tie: equal base frequencies under a model that goes
-    through eigh (generators avoid it; should one land there it is the KNOWN finding, not a new one)"""
+    """the finding sits on a point where the matrix an EIGH-BASED model hands to torch.linalg.eigh has a repeated
+    eigenvalue (measured on the implementation) and concerns a substitution parameter: that is the KNOWN finding
+    (wrong or NaN gradient, e.g. HKY at uniform frequencies or at kappa = 1), not a new one.  Models that do not go
+    through eigh are never mapped."""
+    import c12_scen
+
     spec = bad.get("spec") or {}
-    if spec.get("family") not in ("like", "joint") or bad.get("kind") not in ("wrong-gradient", "non-finite-gradient"):
+    if spec.get("family") != "like" or spec.get("subst") not in c12_scen.EIGH_MODELS:
         return False
-    x = spec.get("x", {})
-    fr = x.get("freqs")
-    z = x.get("zfreqs")
-    uniform = (fr is not None and max(fr) - min(fr) < 1e-12) or (z is not None and all(abs(v) < 1e-12 for v in z))
-    return uniform and bad.get("leaf") in ("freqs", "zfreqs", "kappa", "rates6", "gr")
+    if bad.get("leaf") not in c12_scen.SUBST_PARAM_LEAVES:
+        return False
+    gap = c12_scen.tie_gap(spec)
+    return gap is not None and gap < 1e-6
 
 
 def _finish(ck, out, fam_seen, ok, broken, st_ok):
